@@ -108,11 +108,17 @@ def update_ref_deps(ref: Union[PortRef, BundleRef], resolved: Connectable):
         connected_port.inst.replace(connected_port.portname, resolved)
 
     # Update all dependent slices and concats
+    # `resolved` may itself be a reference which is resolved later (a port reference resolving to a `BundleRef`):
+    # its dependents-to-be are registered with it, so that they are moved on again then.
     if hasattr(ref, "_slices"):
         for slice_ in ref._slices:
             slice_.parent = resolved
+            if hasattr(resolved, "_slices"):
+                resolved._slices.add(slice_)
     if hasattr(ref, "_concats"):
         for concat in ref._concats:
             parts = list(concat.parts)
             parts = [resolved if p is ref else p for p in parts]
             concat.parts = tuple(parts)
+            if hasattr(resolved, "_concats"):
+                resolved._concats.add(concat)
